@@ -35,6 +35,12 @@ DID = {n: i + 11 for i, n in enumerate(DICTS)}
 VID = {n: i + 31 for i, n in enumerate(VOCABS)}
 
 MUTATION_DRILLS = [
+    {"mutation": "ConfigNeedsUpdate: `recorded_time != mtime` became `mtime > recorded_time` (stale only if newer)",
+     "ran": "VERIF_REPO=<worktree> bin/check C12 quick",
+     "fired": "exit 1, VIOLATION with failing inputs: stale-vs-clean:schema.yaml after [..., 'restore shared/v.schema.yaml "
+              "mtime=1500100008'], stale-vs-clean:yaml after [..., 'restore shared/default.yaml mtime=1500400002'], "
+              "stale-vs-clean:prism.bin after ['initial', 'usercopy t.schema.yaml', 'usercopy-del t.schema.yaml'] (the older "
+              "shared file applies again), plus decision-log mismatch (model cfg ... 1, implementation 0)"},
     {"mutation": "ConfigNeedsUpdate: skip the timestamp of '<x>.custom' resources (continue for keys ending in .custom)",
      "ran": "VERIF_REPO=<worktree> bin/check C12 quick",
      "fired": "decision-log mismatch (model cfg schemaN 1, implementation 0) and stale-vs-clean:schema.yaml with the edit history"},
@@ -59,10 +65,95 @@ def used_names(st):
     return set(st["schema_list"])
 
 
-def random_edit(st, rng):
-    """one edit inside the property's alphabet; returns a description"""
+def sub_loc(st, rel):
+    """(container, key) of the part of the state a source file is rendered from"""
+    d, base = rel.split("/", 1)
+    if base == "default.yaml":
+        return (st, "schema_list" if d == "shared" else "user_default")
+    for suffix, shared_key, user_key in ((".schema.yaml", "schemas", "user_schemas"), (".dict.yaml", "dicts", "user_dicts")):
+        if base.endswith(suffix):
+            return (st.setdefault(shared_key if d == "shared" else user_key, {}), base[:-len(suffix)])
+    if base.endswith(".custom.yaml"):
+        return (st.setdefault("custom", {}), base[:-len(".custom.yaml")])
+    if base.endswith(".txt"):
+        return (st.setdefault("vocab", {}), base[:-4])
+    return (None, None)
+
+
+def sub_get(st, rel):
+    c, k = sub_loc(st, rel)
+    return None if c is None else c.get(k)
+
+
+def sub_set(st, rel, val):
+    c, k = sub_loc(st, rel)
+    if val is None:
+        c.pop(k, None)
+        if k == "user_default":
+            st.pop("user_default", None)
+    else:
+        c[k] = val
+
+
+def random_edit(st, rng, versions=None, files=None):
+    """one edit inside the property's alphabet; returns a description.  Modification times are distinct but NOT
+    monotonic: `restore` puts an earlier version of a file back together with its earlier mtime (cp -p, rsync -t,
+    backup restore, package downgrade); `usercopy-*` create / change / delete user-directory copies that shadow
+    the shared files (deleting one makes the older shared file apply again through the fallback resolver)."""
     k = rng.choice(["row", "row", "row", "algebra", "algebra", "custom", "custom", "defcustom", "import", "pack",
-                    "list", "vocab", "usevocab", "touch", "noop", "noop"])
+                    "list", "vocab", "usevocab", "touch", "noop", "noop",
+                    "restore", "restore", "restore", "usercopy", "usercopy", "usercopy", "usercopy-del", "usercopy-del"])
+    if k == "restore":
+        cands = []
+        for rel, vs in sorted((versions or {}).items()):
+            cur = (files or {}).get(rel)
+            for sub, text, mt in vs:
+                if text != cur:
+                    cands.append((rel, sub, text, mt))
+        if not cands:
+            return "noop"
+        rel, sub, text, mt = rng.choice(cands)
+        sub_set(st, rel, copy.deepcopy(sub))
+        st.setdefault("_force_mtime", {})[rel] = (mt, text)
+        return "restore %s mtime=%d%s" % (rel, mt, "" if (files or {}).get(rel) is not None else " (was absent)")
+    if k == "usercopy":
+        kind = rng.choice(["schema", "schema", "dict", "default"])
+        if kind == "default":
+            sl = [x for x in sorted(st["schemas"]) if rng.random() < 0.6] or ["t"]
+            rng.shuffle(sl)
+            st["user_default"] = sl
+            return "usercopy default.yaml schema_list=%s" % ",".join(sl)
+        if kind == "schema":
+            x = rng.choice(sorted(st["schemas"]))
+            us = st.setdefault("user_schemas", {})
+            sc = us.get(x) or copy.deepcopy(st["schemas"][x])
+            alg = sc.setdefault("algebra", [])
+            if alg and rng.random() < 0.3:
+                alg.pop(rng.randrange(len(alg)))
+            else:
+                alg.append("derive/^%s/%s/" % (rng.choice("bdjwyzx"), rng.choice("ptqkcs")))
+            us[x] = sc
+            return "usercopy %s.schema.yaml" % x
+        x = rng.choice(sorted(st["dicts"]))
+        ud = st.setdefault("user_dicts", {})
+        dc = ud.get(x) or copy.deepcopy(st["dicts"][x])
+        dc["rows"].append((chr(rng.randint(0x4e00, 0x4e80)), rng.choice(["jia", "yi", "wu", "zi", "ren", "xin"]), rng.randint(1, 60)))
+        ud[x] = dc
+        return "usercopy %s.dict.yaml" % x
+    if k == "usercopy-del":
+        cands = (["default"] if st.get("user_default") is not None else []) + \
+            ["s:" + x for x in sorted(st.get("user_schemas", {}))] + ["d:" + x for x in sorted(st.get("user_dicts", {}))]
+        if not cands:
+            return "noop"
+        c = rng.choice(cands)
+        if c == "default":
+            st.pop("user_default", None)
+            return "usercopy-del default.yaml"
+        if c.startswith("s:"):
+            del st["user_schemas"][c[2:]]
+            return "usercopy-del %s.schema.yaml" % c[2:]
+        del st["user_dicts"][c[2:]]
+        return "usercopy-del %s.dict.yaml" % c[2:]
     if k == "row":
         d = rng.choice(sorted(st["dicts"]))
         rows = st["dicts"][d]["rows"]
@@ -265,16 +356,23 @@ def run_history(ctx, T, rmodel, hid, steps, rng, scratch, stats):
     hist = []
     crc_seen = {}
     fails = []
+    versions = {}
     for step in range(steps):
-        desc = "initial" if step == 0 else random_edit(st, rng)
+        desc = "initial" if step == 0 else random_edit(st, rng, versions, texts_prev)
         hist.append(desc)
         ek = re.split(r"[ =]", desc)[0]
         stats["edits"][ek] = stats["edits"].get(ek, 0) + 1
         files = deplib.render(st)
+        force = st.pop("_force_mtime", {})
         for rel, text in files.items():
             if texts_prev.get(rel) != text:
-                clock[0] += rng.randint(1, 3)
-                mtimes[rel] = clock[0]
+                if rel in force and force[rel][1] == text:
+                    mtimes[rel] = force[rel][0]           # an earlier version comes back with its earlier mtime
+                    stats["nonmonotonic"] += 1
+                else:
+                    clock[0] += rng.randint(1, 3)
+                    mtimes[rel] = clock[0]
+                    versions.setdefault(rel, []).append((copy.deepcopy(sub_get(st, rel)), text, mtimes[rel]))
         for rel in list(mtimes):
             if rel not in files:
                 del mtimes[rel]
@@ -311,15 +409,18 @@ def run_history(ctx, T, rmodel, hid, steps, rng, scratch, stats):
             stats["noop_steps"] += 1
         # --- model step
         lines = []
-        key_of = {}
-        cur = {}
-        for rel, text in sorted(files.items()):
+        cur, curm = {}, {}
+        for rel, text in sorted(files.items()):      # "shared/.." sorts before "user/..": the user copy wins, as in the resolvers
             fk = fkind(rel)
             if fk is None:
                 continue
             cid = cids.setdefault(text, len(cids) + 1)
+            if fk in cur and rel.startswith("user/"):
+                stats["shadowed_files"] += 1
             cur[fk] = cid
-            lines.append("F %d %d %d %d" % (fk[0], fk[1], cid, mtimes[rel]))
+            curm[fk] = mtimes[rel]
+        for fk in sorted(cur):
+            lines.append("F %d %d %d %d" % (fk[0], fk[1], cur[fk], curm[fk]))
 
         def c(k):
             return str(cur[k]) if k in cur else "-"
@@ -334,11 +435,12 @@ def run_history(ctx, T, rmodel, hid, steps, rng, scratch, stats):
                 ks, DID.get(inf["dict"], "-") if inf["dict"] else "-", pid(inf["prism"]) if inf["prism"] else "-",
                 ",".join(str(DID[p]) for p in inf["packs"] if p in DID) or "-",
                 ",".join(str(SID[d]) for d in inf["deps"] if d in SID) or "-"))
-        for dname, d in st["dicts"].items():
-            rel = "shared/%s.dict.yaml" % dname
-            voc = d.get("vocabulary")
-            lines.append("D %d %s %s" % (cids[files[rel]], ",".join(str(DID[i]) for i in d.get("imports", [])) or "-",
-                                         VID[voc] if voc else "-"))
+        for where, coll in (("shared", st["dicts"]), ("user", st.get("user_dicts", {}))):
+            for dname, d in coll.items():
+                rel = "%s/%s.dict.yaml" % (where, dname)
+                voc = d.get("vocabulary")
+                lines.append("D %d %s %s" % (cids[files[rel]], ",".join(str(DID[i]) for i in d.get("imports", [])) or "-",
+                                             VID[voc] if voc else "-"))
         model.send(lines)
         mlog, mok = model.deploy()
         stats["log_lines"] += len(real_log)
@@ -374,7 +476,9 @@ def run(ctx):
     ]
     ctx.assumptions += [
         "H_crc (crc_inj, cyid_inj): CRC32 injective on the occurring (initial remainder, contents) and compiled schemas",
-        "H_mtime (coherent, nonzero): edits change modification times (whole seconds, always distinct, never 0)",
+        "H_mtime (coherent, nonzero): a changed file has a modification time different from the recorded one - same name and "
+        "same mtime implies same contents; NOT that it is newer: histories restore earlier versions with their earlier mtimes "
+        "and delete user-directory copies so that older shared files apply again (whole seconds, never 0)",
         "wf_srcs: default.yaml exists, every listed schema exists, every schema's dictionary has its .dict.yaml "
         "(deleting a .dict.yaml is outside the edit alphabet: the old table stays in use - C12_delete_dict_keeps_table_witness)",
         "schemas with different compiled configs use different prism names (otherwise every deployment rebuilds the shared "
@@ -397,7 +501,7 @@ def run(ctx):
     scratch = ctx.scratch("c12")
     rng = random.Random(ctx.seed * 7919 + 12)
     nh, steps = (30, 16) if ctx.tier == "quick" else (100, 40)
-    stats = {"edits": {}, "deploys": 0, "log_lines": 0, "decisions": {}, "noop_steps": 0}
+    stats = {"edits": {}, "deploys": 0, "log_lines": 0, "decisions": {}, "noop_steps": 0, "nonmonotonic": 0, "shadowed_files": 0}
     samples = []
     # validate the dependency hypothesis once on a clean deployment
     ws0 = os.path.join(scratch, "deps")
@@ -444,6 +548,7 @@ def run(ctx):
         "rule": "one evaluation = one (edit, incremental deploy, clean deploy, model step); non-trivial = distinct edit kinds "
                 "exercised plus distinct (decision kind, rebuild|keep) outcomes observed in the real decision log, counted",
         "edit_distribution": stats["edits"], "decision_distribution": stats["decisions"], "noop_steps": stats["noop_steps"],
+        "restores_with_earlier_mtime": stats["nonmonotonic"], "deploys_with_shadowing_user_copy": stats["shadowed_files"],
         "decision_log_lines_compared": stats["log_lines"], "samples": samples, "exhaustive": False,
         "mutation_drills": MUTATION_DRILLS,
     })
